@@ -174,3 +174,29 @@ def always_through(fn, start, via, ends, skip_edges=()):
                 continue
             work.append(t)
     return True
+
+
+def creation_site(prog, closure_fn):
+    """(parent Fn, block) where the closure value is built, or (None, None)"""
+    parent = prog.fns.get(closure_fn.parent) if closure_fn.kind == 'Closure' else None
+    if parent is None:
+        return None, None
+    for bi, b in enumerate(parent.blocks):
+        for st in b['s']:
+            if st[0] == '=' and st[2]['r'] == 'agg' and st[2].get('kind') == 'closure' and st[2]['def'] == closure_fn.path:
+                return parent, bi
+    return None, None
+
+
+def conditions_ctx(prog, fn, bb, slicer):
+    """conditions of bb in fn, plus — for a closure — those under which the closure value is created in its
+    parent(s): code moved into `x.and_then(|..| ..)` / `iter.try_for_each(|..| ..)` keeps the guards around it"""
+    out = list(conditions(fn, bb, slicer))
+    f = fn
+    for _ in range(4):
+        parent, cb = creation_site(prog, f)
+        if parent is None:
+            break
+        out.extend(conditions(parent, cb, slicer))
+        f = parent
+    return out
